@@ -15,6 +15,9 @@ type getGen struct {
 func (g *getGen) generate() {
 	g.genComment()
 	g.P("func (x *", g.typeName, ") Get(descriptor ", protoreflectPkg.Ident("FieldDescriptor"), ") ", protoreflectPkg.Ident("Value"), " {")
+	g.P("if x == nil {")
+	g.P("x = new(", g.typeName, ") // a nil message reads as an empty one")
+	g.P("}")
 	g.P("switch descriptor.FullName() {")
 	// implement the fastReflectionFeature Get function
 	for _, field := range g.message.Fields {
